@@ -147,6 +147,11 @@ def unary(w, seed, spec):
         if not np.allclose(np.asarray(ca @ cb), cref, rtol=1e-3, atol=1e-3):
             fails.append(f'{kind} a @ b on complex components = {ca @ cb}, expected the Hermitian sum {cref} '
                          f'(conjugate on the first operand)')
+        # mixed pairs: complex @ real and real @ complex (which side is conjugated shows only here)
+        for l, r, what in ((ca, b, 'complex @ real'), (a, cb, 'real @ complex')):
+            mref = sum(np.sum(np.conj(np.asarray(getattr(l, c))) * np.asarray(getattr(r, c))) for c in COMPS[kind])
+            if not np.allclose(np.asarray(l @ r), mref, rtol=1e-3, atol=1e-3):
+                fails.append(f'{kind} {what} = {l @ r}, expected the Hermitian sum {mref} (conjugate on the first operand)')
         wrong = rand_stokes('QU' if kind != 'QU' else 'IQU', rng)
         for o in (None, 2.0, jnp.ones(3), wrong):
             if a.__matmul__(o) is not NotImplemented:
@@ -336,6 +341,14 @@ def tree_helpers(w, seed, spec):
             if not np.allclose(got, ref, rtol=1e-2, atol=1e-2):
                 fails.append(f'dot on {type(x).__name__} with {len(jax.tree.leaves(x))} leaves: {got}, expected the Hermitian '
                              f'sum {ref} (conjugate on the first argument)')
+        # mixed-dtype pairs: a complex tree against a real one, both ways
+        zc = {'a': jnp.asarray([1 + 2j, -0.5j, 3.0], jnp.complex64), 'b': [jnp.asarray([[1j, 2.0]], jnp.complex64)]}
+        zr = {'a': jnp.asarray([0.5, 2.0, -1.0], jnp.float32), 'b': [jnp.asarray([[3.0, -2.0]], jnp.float32)]}
+        for x, y, what in ((zc, zr, 'complex . real'), (zr, zc, 'real . complex'), (zc, zc, 'complex . complex')):
+            ref = sum(np.sum(np.conj(np.asarray(a)) * np.asarray(b)) for a, b in zip(jax.tree.leaves(x), jax.tree.leaves(y)))
+            got = np.asarray(ft.dot(x, y))
+            if not np.allclose(got, ref, rtol=1e-3, atol=1e-3):
+                fails.append(f'dot {what}: {got}, expected the Hermitian sum {ref} (conjugate on the first argument)')
     passes = []
     for offset in range(4 if fn in (None, 'as_promoted_dtype') else 1):      # vary which leaf carries the widest dtype
         for maker, mname in ((mk_arr, 'arrays'), (mk_sds, 'structures'), (mk_mixed, 'mixed')):
